@@ -149,6 +149,17 @@ theorem sfine_slot_is_freed (s : Ocpp.ServerFine.St) (hs : s.pump = .sel) (hr : 
     (Ocpp.ServerFine.step s .takeReady).isSome = true ∨ (Ocpp.ServerFine.step s .takeOther).isSome = true :=
   SFine.slot_is_freed s hs hr
 
+/-- progress clause, server dispatcher, every interleaving: whenever the pump is parked at its select and nothing is on
+    its way to it (no wake-up in the request channel, the client's ready token neither in the slot nor with a goroutine
+    waiting for the slot, no sender between push and wake-up, no disconnection before its wake-up, the reader not about to
+    post the ready signal), there is nothing the pump could dispatch for this client: no wake-up is ever lost -/
+theorem sfine_no_lost_wakeup {s : Ocpp.ServerFine.St} (h : SFine.Reach s) (hp : s.pump = .sel) (h1 : s.reqs = 0) (h2 : s.ready ≠ .me)
+    (h3 : s.sigw = 0) (h4 : s.mid = 0) (h5 : s.link ≠ .dl2) (h6 : ∀ id, s.reader ≠ .c3 id) : ¬ SFine.Dispatchable s :=
+  SFine.no_lost_wakeup h hp h1 h2 h3 h4 h5 h6
+
+example : ∃ s, SFine.Reach s ∧ s.pump = .sel ∧ SFine.Dispatchable s :=
+  ⟨_, ⟨true, true, true, [.connect, .sget, .push 1 0, .notify], rfl⟩, rfl, ⟨0, rfl, by decide, rfl⟩⟩
+
 /-- both outcomes of `network.Write` return the pump -/
 theorem sfine_write_returns (s : Ocpp.ServerFine.St) (hh : Nat) (hp : s.pump = .wr hh) :
     (Ocpp.ServerFine.step s .writeOk).isSome = true ∧ (Ocpp.ServerFine.step s .writeFail).isSome = true :=
